@@ -81,20 +81,30 @@ where
     };
     let polls = cutoff.polls.load(SeqCst);
     let watchdog = cutoff.dog.load(SeqCst);
-    let ret = match res {
+    let describe = |res: &std::thread::Result<Completion>, solver: &SequentialSolver<St, RecDD<D>, RecCache<C>>, polls: usize, watchdog: bool, again: bool| match res {
         Ok(c) => {
             let (lb, ub) = (solver.best_lower_bound(), solver.best_upper_bound());
             let g = solver.gap();
-            json!({"ev":"return","panicked":false,"is_exact":c.is_exact,"cval":onum(c.best_value),"best_value":onum(solver.best_value()),
+            json!({"ev":"return","again":again,"panicked":false,"is_exact":c.is_exact,"cval":onum(c.best_value),"best_value":onum(solver.best_value()),
                    "has_value": solver.best_value().is_some(), "best_lb":num(lb),"best_ub":num(ub),"sol":soljson(&solver.best_solution()),
                    "explored":solver.explored(),"polls":polls,"watchdog":watchdog,"root_in_cutset":rootcs,
                    "gap": {"nan": g.is_nan(), "neg": g < 0.0, "zero": g == 0.0, "one": g == 1.0, "le1": g <= 1.0, "text": format!("{g:e}"),
                            "lb": lb.to_string(), "ub": ub.to_string()}})
         }
-        Err(_) => json!({"ev":"return","panicked":true,"is_exact":false,"cval":NEG_INF,"best_value":NEG_INF,"has_value":false,"best_lb":NEG_INF,"best_ub":POS_INF,
+        Err(_) => json!({"ev":"return","again":again,"panicked":true,"is_exact":false,"cval":NEG_INF,"best_value":NEG_INF,"has_value":false,"best_lb":NEG_INF,"best_ub":POS_INF,
                          "sol":soljson(&None),"explored":0,"polls":polls,"watchdog":watchdog,"root_in_cutset":rootcs,
                          "gap":{"nan":false,"neg":false,"zero":false,"one":true,"le1":true,"text":"-","lb":"-","ub":"-"}}),
     };
+    let mut ret = describe(&res, &solver, polls, watchdog, false);
+    // a run that was cut off is asked to go on: maximize() is called a second time on the same solver while the cutoff keeps answering
+    // 'stop'; what it reports then must still be sound (C05) and no worse than what the first call reported (C19)
+    let was_cut = cfg.cut_at > 0 && res.is_ok() && !watchdog && matches!(&res, Ok(c) if !c.is_exact);
+    if was_cut {
+        let res2 = std::panic::catch_unwind(std::panic::AssertUnwindSafe(|| solver.maximize()));
+        take_log();
+        let second = describe(&res2, &solver, cutoff.polls.load(SeqCst), cutoff.dog.load(SeqCst), true);
+        ret["second"] = second;
+    }
     (evs, ret)
 }
 
@@ -128,7 +138,12 @@ impl Out<'_> {
                 writeln!(self.w, "{}", e).unwrap();
             }
         }
+        let mut ret = ret;
+        let second = ret.as_object_mut().unwrap().remove("second");
         writeln!(self.w, "{}", ret).unwrap();
+        if let Some(s2) = second {
+            writeln!(self.w, "{}", s2).unwrap();
+        }
         self.run += 1;
     }
 }
